@@ -25,6 +25,7 @@ def kwConflict (es : List Entry) (kw : List (Key × Val)) : Option Key :=
 
 inductive KwErr where
   | attribute
+  | raised (e : Err)         -- what `draw_space` raises on this space without keywords too (`drawRaises`)
   | conflict (key : Key)     -- "… is specified in agent portrayal and via plotting kwargs, you can only use one or the other"
 deriving DecidableEq, Repr
 
@@ -53,9 +54,12 @@ def scatterKw (es : List Entry) (kw : List (Key × Val)) : Except KwErr KwDrawin
 
 /-- `draw_space(space, agent_portrayal, ax=ax, **kw)` -/
 def drawSpaceKw (sp : Space) (heap : Heap) (p : Portrayal) (kw : List (Key × Val)) : Except KwErr KwDrawing :=
-  match collectAgentData drawDefaults heap p (spaceAgents sp) with
-  | none => .error .attribute
-  | some es =>
-    scatterKw (es.map fun e => { e with loc := transform sp.fam e.loc }) (if forwardsKwargs sp.fam then kw else [])
+  match drawRaises sp with
+  | some e => .error (.raised e)
+  | none =>
+    match collectAgentData drawDefaults heap p (spaceAgents sp) with
+    | none => .error .attribute
+    | some es =>
+      scatterKw (es.map fun e => { e with loc := transform sp.fam e.loc }) (if forwardsKwargs sp.fam then kw else [])
 
 end Mesa.Viz
